@@ -666,139 +666,166 @@ class Slicer:
             return True
         return False
 
+    # Every public query (operand / place / local / rvalue / call) is a fresh depth-first closure over the def-use graph:
+    # the atom set of a node is the union over all nodes reachable from it, so a per-query visited set is exact and no
+    # partially computed result is ever cached (a cycle guard with a shared cache would poison inner nodes).
     def operand(self, fn, op, depth=0):
-        if op[0] in ('c', 'm'):
-            return self.place(fn, op[1])
-        if op[0] == 'k':
-            return self.konst(fn, op[1])
-        return set()
-
-    def konst(self, fn, k):
-        out = set()
-        if 'fn' in k:
-            out.add(('FN', k.get('res') or k['fn']))
-        if 'def' in k and 'promoted' not in k:
-            out.add(('K', k['def']))
-            if 'val' in k:
-                out.add(('V', k['val']))
-            elif self.narrow:
-                pass
-            else:
-                # struct-valued named constant: also slice its initializer
-                cf = self.prog.fns.get(k['def'])
-                if cf is not None and cf.kind == 'const':
-                    out |= self.local(cf, 0)
-        elif 'promoted' in k:
-            pf = self.prog.promoted_of(fn, k['promoted'])
-            if pf is not None:
-                out |= self.local(pf, 0)
-        elif 'val' in k:
-            out.add(('V', k['val']))
-        if 'str' in k:
-            out.add(('S', k['str']))
-        return out
+        return self._q(('op', fn, op))
 
     def place(self, fn, pl):
-        out = set()
-        for (adt, field) in place_fields(pl):
-            out.add(('F', adt, field))
-        base = pl[0]
-        # closure upvar?
-        if fn.kind == 'closure' and base == 1 and pl[1]:
-            # find the field index on the closure env
-            for p in pl[1]:
-                if p == '*':
-                    continue
-                if isinstance(p, list) and p[0] == 'f' and p[2].startswith('closure:'):
-                    out |= self.upvar(fn, p[1])
-                break
-            return out
-        for p in pl[1]:
-            if isinstance(p, list) and p[0] == 'i':
-                out |= self.local(fn, p[1])
-        out |= self.local(fn, base, first_field(pl))
-        return out
-
-    def upvar(self, cfn, idx):
-        key = ('U', cfn.id, idx)
-        if key in self.cache:
-            return self.cache[key]
-        self.cache[key] = set()
-        out = set()
-        par = self.prog.fns.get(cfn.parent)
-        if par is not None:
-            for b in par.blocks:
-                for st in b['s']:
-                    if st[0] == '=' and st[2][0] == 'agg' and st[2][1].get('k') == 'closure' and st[2][1]['def'] == cfn.id:
-                        ops = st[2][2]
-                        if idx < len(ops):
-                            out |= self.operand(par, ops[idx])
-        self.cache[key] = out
-        return out
+        return self._q(('pl', fn, pl))
 
     def local(self, fn, l, ff=None):
-        key = (fn.id, l, ff)
-        if key in self.cache:
-            return self.cache[key]
-        self.cache[key] = set()  # cycle guard
-        out = set()
-        if 1 <= l <= fn.nargs and not (fn.kind == 'closure' and l == 1):
-            out.add(('P', l))
-        for rnd in (0, 1):  # second round closes cycles
-            for d in fn.defs.get(l, []):
-                if d[0] == '=':
-                    if ff is not None:
-                        dff = first_field(d[3])
-                        if dff is not None and dff != ff:
-                            continue  # write to a sibling field of the one being read
-                    out |= self.rvalue(fn, d[4])
-                elif d[0] == 'call':
-                    out |= self.call(fn, d[2])
-                elif d[0] == 'mutcall':
-                    if ff is not None and d[3] is not None and d[3] != ff:
-                        continue
-                    out |= self.call(fn, d[2], mut=True)
-            self.cache[key] = set(out)
-        return out
-
-    def call(self, fn, c, mut=False):
-        out = set()
-        if c.callee:
-            out.add(('C', c.callee))
-            if c.defp and c.defp != c.callee:
-                out.add(('C', c.defp))
-        if self.narrow and self.opaque(c):
-            return out
-        for a in c.args:
-            out |= self.operand(fn, a)
-        return out
+        return self._q(('lo', fn, l, ff))
 
     def rvalue(self, fn, rv):
-        k = rv[0]
-        if k == 'use':
-            return self.operand(fn, rv[1])
-        if k in ('ref', 'rawptr'):
-            return self.place(fn, rv[2])
-        if k == 'cfd':
-            return self.place(fn, rv[1])
-        if k == 'cast':
-            return self.operand(fn, rv[2])
-        if k == 'bin':
-            return self.operand(fn, rv[2]) | self.operand(fn, rv[3]) | {('OP', norm_op(rv[1]))}
-        if k == 'un':
-            return self.operand(fn, rv[2])
-        if k == 'discr':
-            return self.place(fn, rv[1])
-        if k == 'agg':
-            out = set()
-            if rv[1].get('k') == 'adt':
-                out.add(('E', rv[1]['adt'], rv[1]['variant']))
-            for o in rv[2]:
-                out |= self.operand(fn, o)
-            return out
-        if k == 'repeat':
-            return self.operand(fn, rv[1])
-        return set()
+        return self._q(('rv', fn, rv))
+
+    def call(self, fn, c, mut=False):
+        return self._q(('ca', fn, c))
+
+    def upvar(self, cfn, idx):
+        return self._q(('up', cfn, idx))
+
+    def konst(self, fn, k):
+        return self._q(('ko', fn, k))
+
+    def _q(self, item):
+        ck = None
+        if item[0] == 'lo':
+            ck = ('lo', item[1].id, item[2], item[3])
+        elif item[0] == 'up':
+            ck = ('up', item[1].id, item[2])
+        if ck is not None and ck in self.cache:
+            return self.cache[ck]
+        out = set()
+        seen = set()
+        work = [item]
+        while work:
+            it = work.pop()
+            kind = it[0]
+            fn = it[1]
+            if kind == 'op':
+                op = it[2]
+                if op[0] in ('c', 'm'):
+                    work.append(('pl', fn, op[1]))
+                elif op[0] == 'k':
+                    work.append(('ko', fn, op[1]))
+            elif kind == 'ko':
+                k = it[2]
+                if 'fn' in k:
+                    out.add(('FN', k.get('res') or k['fn']))
+                if 'def' in k and 'promoted' not in k:
+                    out.add(('K', k['def']))
+                    if 'val' in k:
+                        out.add(('V', k['val']))
+                    elif not self.narrow:
+                        cf = self.prog.fns.get(k['def'])
+                        if cf is not None and cf.kind == 'const':
+                            work.append(('lo', cf, 0, None))
+                elif 'promoted' in k:
+                    pf = self.prog.promoted_of(fn, k['promoted'])
+                    if pf is not None:
+                        work.append(('lo', pf, 0, None))
+                elif 'val' in k:
+                    out.add(('V', k['val']))
+                if 'str' in k:
+                    out.add(('S', k['str']))
+            elif kind == 'pl':
+                pl = it[2]
+                for (adt, field) in place_fields(pl):
+                    out.add(('F', adt, field))
+                base = pl[0]
+                if fn.kind == 'closure' and base == 1 and pl[1]:
+                    for p in pl[1]:
+                        if p == '*':
+                            continue
+                        if isinstance(p, list) and p[0] == 'f' and p[2].startswith('closure:'):
+                            work.append(('up', fn, p[1]))
+                        break
+                    continue
+                for p in pl[1]:
+                    if isinstance(p, list) and p[0] == 'i':
+                        work.append(('lo', fn, p[1], None))
+                work.append(('lo', fn, base, first_field(pl)))
+            elif kind == 'up':
+                idx = it[2]
+                key = ('up', fn.id, idx)
+                if key in seen:
+                    continue
+                seen.add(key)
+                par = self.prog.fns.get(fn.parent)
+                if par is not None:
+                    for b in par.blocks:
+                        for st in b['s']:
+                            if st[0] == '=' and st[2][0] == 'agg' and st[2][1].get('k') == 'closure' and st[2][1]['def'] == fn.id:
+                                ops = st[2][2]
+                                if idx < len(ops):
+                                    work.append(('op', par, ops[idx]))
+            elif kind == 'lo':
+                l, ff = it[2], it[3]
+                key = ('lo', fn.id, l, ff)
+                if key in seen:
+                    continue
+                seen.add(key)
+                if 1 <= l <= fn.nargs and not (fn.kind == 'closure' and l == 1):
+                    out.add(('P', l))
+                for d in fn.defs.get(l, []):
+                    if d[0] == '=':
+                        if ff is not None:
+                            dff = first_field(d[3])
+                            if dff is not None and dff != ff:
+                                continue
+                        work.append(('rv', fn, d[4]))
+                    elif d[0] == 'call':
+                        work.append(('ca', fn, d[2]))
+                    elif d[0] == 'mutcall':
+                        if ff is not None and d[3] is not None and d[3] != ff:
+                            continue
+                        work.append(('ca', fn, d[2]))
+            elif kind == 'ca':
+                c = it[2]
+                key = ('ca', fn.id, c.bb)
+                if key in seen:
+                    continue
+                seen.add(key)
+                if c.callee:
+                    out.add(('C', c.callee))
+                    if c.defp and c.defp != c.callee:
+                        out.add(('C', c.defp))
+                if self.narrow and self.opaque(c):
+                    continue
+                for a in c.args:
+                    work.append(('op', fn, a))
+            elif kind == 'rv':
+                rv = it[2]
+                k = rv[0]
+                if k == 'use':
+                    work.append(('op', fn, rv[1]))
+                elif k in ('ref', 'rawptr'):
+                    work.append(('pl', fn, rv[2]))
+                elif k == 'cfd':
+                    work.append(('pl', fn, rv[1]))
+                elif k == 'cast':
+                    work.append(('op', fn, rv[2]))
+                elif k == 'bin':
+                    out.add(('OP', norm_op(rv[1])))
+                    work.append(('op', fn, rv[2]))
+                    work.append(('op', fn, rv[3]))
+                elif k == 'un':
+                    work.append(('op', fn, rv[2]))
+                elif k == 'discr':
+                    work.append(('pl', fn, rv[1]))
+                elif k == 'agg':
+                    if rv[1].get('k') == 'adt':
+                        out.add(('E', rv[1]['adt'], rv[1]['variant']))
+                    for o in rv[2]:
+                        work.append(('op', fn, o))
+                elif k == 'repeat':
+                    work.append(('op', fn, rv[1]))
+        if ck is not None:
+            self.cache[ck] = out
+        return out
 
 
 def norm_op(o):
@@ -893,7 +920,10 @@ def has_atom(atoms, pat):
                 return True
         elif kind == 'E':
             adt, _, var = rest.rpartition('::')
-            if a[2] == var and _sfx(a[1], adt):
+            if not adt:
+                if _sfx(a[1], var):
+                    return True
+            elif a[2] == var and _sfx(a[1], adt):
                 return True
         elif kind in ('K', 'C', 'FN'):
             if _sfx(a[1], rest) or a[1].endswith(rest):
@@ -904,7 +934,7 @@ def has_atom(atoms, pat):
         elif kind == 'P':
             if str(a[1]) == rest:
                 return True
-        elif kind in ('S', 'OP'):
+        elif kind in ('S', 'OP', 'XOP'):
             if rest in str(a[1]):
                 return True
     return False
